@@ -15,6 +15,23 @@ func init() {
 
 func driveMSM(c *ctx) {
 	r := rand.New(rand.NewSource(c.seed))
+	// cold start: the first multiplication of this process is the variable-time double-scalar one, on a point that came from bytes
+	// (no ScalarBaseMult, key generation or signing has happened yet)
+	for i := 0; i < 2; i++ {
+		P := bigECMul(add(randBig(r, add(bigN, -1)), 1), &xy{bigGx, bigGy})
+		p, err := secp256k1.NewPointFromBytes(encUnc(*P))
+		if err != nil {
+			c.E("lib.Unexpected", "what", "a valid point encoding was rejected: "+err.Error())
+			continue
+		}
+		u1, u2 := randBig(r, bigN), randBig(r, bigN)
+		if i == 1 {
+			u2 = big.NewInt(0)
+		}
+		ph := ptRaw(p)
+		v := secp256k1.NewIdentityPoint().DoubleScalarMultBasepointVartime(scFrom(u1), scFrom(u2), p)
+		c.E("dsm", "alias", "none", "u1", h32(u1), "u2", h32(u2), "p", ph, "out", ptRaw(v), "p_post", ptRaw(p))
+	}
 	G := secp256k1.NewGeneratorPoint()
 	R1 := mulG(add(randBig(r, add(bigN, -3)), 2))
 	R2 := mulG(add(randBig(r, add(bigN, -3)), 2))
@@ -194,9 +211,9 @@ func driveMSM(c *ctx) {
 		run(n, rnd(6), rnd(7), false, -1)
 	}
 	// long lists
-	longs := []int{7, 8, 15, 16, 31, 32, 33}
+	longs := []int{7, 8, 15, 16, 31, 32, 33, 64, 65, 67, 129, 130}
 	if c.thorough() {
-		longs = append(longs, 64, 65, 100)
+		longs = append(longs, 100, 127, 191, 193, 255, 257)
 	}
 	for _, n := range longs {
 		run(n, rnd(6), rnd(7), n%2 == 1, 0)
